@@ -43,6 +43,7 @@ type VMCase struct {
 	Extra      []VMAccount // further accounts of the pre-state (contracts the program may call)
 	UsesExt    bool
 	Heavy      bool // may legitimately exceed the watchdog (EXP with huge operands, giant allocation)
+	Expect     string // JSON object: facts that must hold of the result by construction of the program (profile "create")
 }
 
 // VMAccount is an account of the pre- or post-state.
@@ -304,6 +305,9 @@ func VMLine(c *VMCase, r *VMResult) string {
 	}
 	if c.Heavy {
 		b.WriteString(`,"heavy":true`)
+	}
+	if c.Expect != "" {
+		b.WriteString(`,"expect":` + c.Expect)
 	}
 	b.WriteString(`,"code":"` + hex.EncodeToString(c.Code) + `","input":"` + hex.EncodeToString(c.Input) + `"`)
 	b.WriteString(`,"gas":` + strconv.FormatInt(c.Gas, 10) + `,"value":` + strconv.FormatInt(c.Value, 10))
